@@ -66,6 +66,9 @@ def value(v, key, it, in_node):
 def to_coq(c, it, key=None, in_node=False):
     if isinstance(c, dict):
         ents = []
+        if key == "files#item" and "file_name" in c and "." not in str(c["file_name"]) and str(c.get("type", "UNKNOWN")).upper() != "UNKNOWN":
+            # File's documented naming rule: a name without an extension takes the extension of its declared type
+            c = dict(c, file_name="%s.%s" % (c["file_name"], str(c["type"]).lower()))
         for k, v in c.items():
             if isinstance(k, bool):
                 continue
